@@ -759,6 +759,13 @@ func (c *Ctx) fieldHeapName(st types.Type, fld string) string {
 
 func (c *Ctx) heapVar(s State, name string, sort *Sort) *Term {
 	if t, ok := s[name]; ok {
+		if !isMarker(t) {
+			return t
+		}
+		// havocked before its sort was known: an arbitrary value from here on
+		c.heapSort[name] = sort
+		t = c.fresh(name, sort)
+		s[name] = t
 		return t
 	}
 	c.heapSort[name] = sort
@@ -766,6 +773,10 @@ func (c *Ctx) heapVar(s State, name string, sort *Sort) *Term {
 	s[name] = t
 	return t
 }
+
+// havocMarker stands in a state for "this heap was overwritten by a call or a
+// loop before anything referenced it (its sort is not known yet)".
+var havocMarker = &Term{Op: "$havoc", Sort: BoolSort}
 
 func (c *Ctx) fieldHeap(s State, st types.Type, u *types.Struct, i int) (string, *Term) {
 	name := c.fieldHeapName(st, u.Field(i).Name())
